@@ -119,3 +119,20 @@ func (e *Engine) diffRun(heights []int, seed int) []ExtraResult {
 	}
 	return rs
 }
+
+// refRun: library vs. an independent full-Merkle-tree reference implementation (public key and every signature).
+func (e *Engine) refRun(heights []int, seed int) []ExtraResult {
+	t0 := time.Now()
+	var hs []string
+	for _, h := range heights {
+		hs = append(hs, fmt.Sprint(h))
+	}
+	os.Setenv("VERIF_HEIGHTS", strings.Join(hs, ","))
+	os.Setenv("VERIF_SEED", fmt.Sprint(seed))
+	out, err := e.runOverlayTest("xmss", map[string]string{"xmss/zz_verif_ref_test.go": readHarness("xmss/ref_test.go.txt")}, "TestVerifRefRun", 1800)
+	rs := parseBounded(out, "independent reference implementation, public key and the signature at every index of each listed height, three hash functions, one VERIF_SEED-derived seed", time.Since(t0).Seconds())
+	if len(rs) != 3*len(heights) {
+		rs = append(rs, ExtraResult{Name: "ref-run", Backend: "bounded", Bounded: true, OK: false, Detail: fmt.Sprintf("reference run reported %d of %d results (err=%v): %s", len(rs), 3*len(heights), err, tailStr(out, 800))})
+	}
+	return rs
+}
